@@ -309,6 +309,14 @@ pub fn build(seed: u64, tier: Tier) -> Corpus {
             }
         }
     }
+    // span-free values (C18): silent rules over strings, ranges and choices - two results can differ
+    // in nothing but the alternative taken or one character
+    {
+        let text = "kw = _{ \"a\" | \"b\" | \"c\" }\npair = _{ ('a'..'z') ~ \"=\" ~ ('0'..'9') }\nsw = _{ (\"x\" | \"y\") ~ (\"x\" | \"y\") ~ (\"x\" | \"y\" | \"z\")? }\nnest = _{ \"a\" ~ (\"b\" | \"c\") | \"d\" ~ (\"b\" | \"c\")* }\nins = _{ ^\"ab\" ~ ANY }\nwrapped = { kw ~ kw }\nlook = _{ (\"a\" ~ &\"bc\" | ^\"a\") ~ \"b\" }";
+        let mut s = Spec::new("valuesem", "values", text);
+        s.forms = true;
+        specs.push(s);
+    }
     specs.push(crate::arity::spec());
     // getter family (C16)
     for (i, text) in crate::getters::HAND_WRITTEN.iter().enumerate() {
